@@ -34,6 +34,9 @@ void harness(void)
 #else
   uint8_t *in = malloc(inlen); __CPROVER_assume(in);
 #endif
+#ifdef TJV_NULLIN
+  if (inlen == 0) in = 0;                             /* C06/C11: NULL with length 0 is an empty update */
+#endif
 #ifdef TJV_LEN
   TJW_BYTES(tjw_in, in, inlen, 40);
 #endif
